@@ -47,6 +47,7 @@ const remoteOwned = "https://r1.example/n/owned-by-us"
 const localForeignCol = "https://l.example/c/other-tenant"
 const followBob = "https://l.example/f/bob"   // stored, but it is Bob's Follow
 const followNone = "https://l.example/f/none" // not stored at all
+const followDup = "https://l.example/f/dup"   // stored, ours, names one followed actor twice
 
 const remoteArticle = "https://r1.example/n/article"
 
@@ -60,6 +61,8 @@ func c04world(a *ap.App) {
 	a.PutDoc(Doc("Follow", followBob, "actor", Bob, "object", L{Carol, Dave}))
 	a.PutRemote(followBob, Doc("Follow", followBob, "actor", Alice, "object", L{Carol, Dave}))
 	a.PutRemote(followNone, Doc("Follow", followNone, "actor", Alice, "object", L{Carol, Dave}))
+	a.PutDoc(Doc("Follow", followDup, "actor", Alice, "object", L{Carol, Carol}))
+	a.PutRemote(followDup, Doc("Follow", followDup, "actor", Alice, "object", L{Carol, Carol}))
 	// cached copies of foreign data: must never be modified by Like/Announce/Add/Remove
 	a.PutDoc(Doc("Note", cachedForeign, "attributedTo", Carol, "content", "cached foreign note"))
 	a.PutDoc(Doc("Collection", RCol, "items", L{Carol}))
@@ -399,7 +402,8 @@ func c04cases(thorough bool) []c04case {
 	}
 	followAlpha := []interface{}{Follow1, Emb("Follow", Follow1, "actor", Alice, "object", Carol),
 		followBob, Emb("Follow", followBob, "actor", Alice, "object", L{Carol, Dave}), Emb("Follow", followBob, "actor", Bob, "object", L{Carol, Dave}),
-		followNone, Emb("Follow", followNone, "actor", Alice, "object", Carol), RNote}
+		followNone, Emb("Follow", followNone, "actor", Alice, "object", Carol), RNote,
+		followDup, Emb("Follow", followDup, "actor", Alice, "object", L{Carol, Erin})}
 	for _, objs := range combos(followAlpha, 2) {
 		for _, actors := range combos([]interface{}{Carol, Dave, Erin, Emb("Person", Carol)}, 2) {
 			add("Accept", Doc("Accept", RAct, "actor", val(actors), "object", val(objs)), 0)
